@@ -8,6 +8,7 @@ package c20
 
 import (
 	"context"
+	"errors"
 	"fmt"
 	"math/rand"
 	"sync"
@@ -418,7 +419,7 @@ func (r *rig) handleGate(ev *gateEv) error {
 	return nil
 }
 
-var errStuck = fmt.Errorf("stuck")
+var errStuck = errors.New("stuck")
 
 // pump drives the scenario until stop() holds. withTimers: a Subscriber run loop is live, so
 // the mock clock is advanced to the next armed timer whenever no request is at a gate.
@@ -437,7 +438,7 @@ func (r *rig) pump(withTimers bool, stop func() bool) error {
 		default:
 		}
 		if r.ctx.Err() != nil {
-			return errStuck
+			return fmt.Errorf("%w: scenario watchdog fired", errStuck)
 		}
 		if withTimers {
 			before := r.clk.Now()
@@ -449,7 +450,7 @@ func (r *rig) pump(withTimers bool, stop func() bool) error {
 		}
 		idle++
 		if idle > maxIdle {
-			return errStuck
+			return fmt.Errorf("%w: no request and no timer for %d yields at mock time %s", errStuck, maxIdle, r.now())
 		}
 		time.Sleep(200 * time.Microsecond)
 	}
